@@ -184,11 +184,19 @@ func FuncBuilder(env *Zlisp, name string,
 		return MissingFunction, err
 	}
 
-	// minimal sanity check that we return the number of arguments
-	// on the stack that are declared
+	// a call leaves exactly one value on the data stack: a function
+	// without a body returns nil, or, like (return a b), one array with
+	// a nil per declared result when several are declared.
 	if len(body) == 0 {
-		for range retHash.KeyOrder {
+		nret := len(retHash.KeyOrder)
+		if nret > 1 {
+			gen.AddInstruction(PushInstr{SexpMarker})
+		}
+		for i := 0; i < nret || i < 1; i++ {
 			gen.AddInstruction(PushInstr{expr: SexpNull})
+		}
+		if nret > 1 {
+			gen.AddInstruction(VectorizeInstr(0))
 		}
 	}
 
